@@ -259,3 +259,23 @@ func Verif_C08_reload() {
 		cl.packedResponseCreatedAt.Load() == orig.packedResponseCreatedAt.Load() && cl.GetPackedResponse() != nil)
 	vs.Assert("clone starts with no refresh in flight", !cl.refreshing.Load())
 }
+
+// Verif_C08_fixed_ttl_case: the answer to a question asked in another letter case, with or without
+// the final dot, is stored through the production path: it lives for the fixed TTL configured for
+// the name (names compare case-insensitively) and is found under the one case-insensitive key.
+func Verif_C08_fixed_ttl_case() {
+	c08Install()
+	fixedTtl := vs.IntRange("fixed_domain_ttl", 0, 86400)
+	ttl := vs.IntRange("ttl", 0, 31536000)
+	c := c08Controller(false, 0, 100, map[string]int{"example.com": fixedTtl})
+	asked := []string{"example.com.", "Example.COM.", "eXAMPLE.com", "example.com"}[vs.Choice("asked.spelling", 4)]
+	key := c.cacheKey(asked, dnsmessage.TypeA)
+	vs.Assert("cache key is case-insensitive and fully qualified", key == c.cacheKey("example.com.", dnsmessage.TypeA))
+	err := c.UpdateDnsCacheTtlWithKey(key, asked, dnsmessage.TypeA, c08Answer(asked, uint32(ttl)), nil, nil, ttl)
+	vs.Assert("insert succeeds", err == nil)
+	v, ok := c.dnsCache.Load(key)
+	vs.Assert("entry stored under its key", ok)
+	entry := v.(*DnsCache)
+	t0 := entry.OriginalDeadline.UnixNano() - int64(ttl)*c08Sec
+	vs.Assert("the entry lives for the fixed ttl of its name, however the question was spelled", entry.Deadline.UnixNano() == t0+int64(fixedTtl)*c08Sec)
+}
